@@ -356,6 +356,10 @@ pub struct PatchApplyResult {
     pub changed_files: Vec<String>,
 }
 
+#[cfg(kani)]
+#[path = "/verif/harness/rip-workspace/lib.rs"]
+mod verif_kani;
+
 #[cfg(test)]
 mod tests {
     use super::*;
